@@ -1230,6 +1230,10 @@ class Realised:
         self.dims = "concrete"  # how the model inputs were declared
         self.owned = 0  # caller-owned lists handed to constructors
         self.mutations: dict[str, int] = {}  # … and what the caller did to them afterwards
+        self.events: list = []  # [0, list object, [var ids]] = the caller sets the list's contents, [1, list object] = call
+        self.calls: list[int] = []  # abstract node constructed by the i-th call event
+        self.var_ids: dict[int, int] = {}  # id(Var) -> small number (Vars stay alive in `keep`)
+        self.keep: list = []
         self.unobservable: Optional[str] = None  # set when a spox internal could not be read
 
 
@@ -1314,8 +1318,21 @@ def realise(prog, rng: random.Random, style: str = "lazy", twins: bool = False, 
     # call; the program's dataflow is what was constructed.  (own = hand out, disown = mutate afterwards)
     mrng = random.Random(f"own:{style}:{len(nodes)}:{prog.get('opset', 17)}")
     shared: list = []  # one list object re-used by consecutive calls
+    current: list = [-1]  # abstract node whose constructor is being called
     frames: list = [[]]  # lists handed to the constructor call in flight, per nested make()
     busy = [False]  # the shared list is in the hands of a constructor that has not returned yet
+
+    list_ids: dict[int, int] = {}
+
+    def vid(v):
+        if id(v) not in R.var_ids:
+            R.var_ids[id(v)] = len(R.var_ids)
+            R.keep.append(v)
+        return R.var_ids[id(v)]
+
+    def event_set(lst):
+        R.keep.append(lst)
+        R.events.append([0, list_ids.setdefault(id(lst), len(list_ids)), [vid(v) for v in lst]])
 
     def own(seq):
         seq = list(seq)
@@ -1330,6 +1347,9 @@ def realise(prog, rng: random.Random, style: str = "lazy", twins: bool = False, 
             lst = seq
         frames[-1].append(lst)
         R.owned += 1
+        event_set(lst)
+        R.events.append([1, list_ids[id(lst)]])
+        R.calls.append(current[-1])
         return lst
 
     def own_attr(values):
@@ -1392,6 +1412,8 @@ def realise(prog, rng: random.Random, style: str = "lazy", twins: bool = False, 
             elif others:
                 lst.insert(0, mrng.choice(others))
             R.mutations[kind] = R.mutations.get(kind, 0) + 1
+            if id(lst) in list_ids:
+                event_set(lst)
 
     def var(r):
         make(r[0])
@@ -1419,10 +1441,12 @@ def realise(prog, rng: random.Random, style: str = "lazy", twins: bool = False, 
             make(n["ins"][j][0])
         a = [None if r is None else R.vars[(r[0], r[1])] for r in n["ins"]]
         frames.append([])
+        current.append(k)
         try:
             construct(k, n, o, a)
         finally:
             frames.pop()
+            current.pop()
 
     def construct(k, n, o, a):
 
@@ -2818,3 +2842,67 @@ def no_input_programs() -> Iterator[tuple[dict, str]]:
         else:
             out = iff(loop(s), (b, 0))
         yield {"nodes": nodes, "outputs": [list(out)], "opset": 17}, shape
+
+
+def observed_sequence_operands(R: Realised):
+    """Observation (spox internals, guarded by the caller): for the i-th constructor call that was handed a
+    caller-owned list, what the constructed node holds NOW (after all the caller's mutations) in its
+    sequence-of-Vars field: (type name of the container, var numbers).  Unknown Vars are numbered -1."""
+    out = []
+    for k in R.calls:
+        node = R.vars[(k, 0)]._op
+        fields = node.inputs.get_fields()
+        seqs = [v for v in fields.values() if v is not None and not hasattr(v, "_op")]
+        if len(seqs) != 1:
+            raise HarnessError(f"node {k}: {len(seqs)} sequence fields")
+        out.append((type(seqs[0]).__name__, [R.var_ids.get(id(v), -1) for v in seqs[0]]))
+    return out
+
+
+def variadic_programs() -> Iterator[tuple[dict, str]]:
+    """Every sequence-taking constructor of the vocabulary (Max Min Sum Mean Einsum Concat) with 1-4 operands —
+    repeated operands included — in the main graph, inside an If branch (closed-over operands) and inside a Loop
+    body (operands depending on the formals), plus a Loop and a Scan whose `v_initial` / state list holds two
+    values: with the realiser's caller-owned lists every such call is followed by a mutation of the list it was
+    given.  Yields (prog, tag)."""
+    F, B_, S = ty("f32", [N]), ty("bool", []), ty("i64", [])
+    counts = {"Max": (1, 2, 3), "Min": (1, 3), "Sum": (1, 2, 3, 4), "Mean": (1, 2, 4), "Einsum": (2, 3), "Concat": (1, 2, 3)}
+    for kind, ks in counts.items():
+        for k in ks:
+            for place in ("main", "if", "loop"):
+                nodes: list[dict] = []
+
+                def add(op, ins=(), subs=(), attrs=None, tys=()):
+                    nodes.append({"op": op, "ins": [list(r) if r else None for r in ins], "subs": list(subs), "attrs": dict(attrs or {}), "ty": [list(t) for t in tys]})
+                    return len(nodes) - 1
+
+                x = add("arg", attrs={"role": "main"}, tys=[F])
+                y = add("arg", attrs={"role": "main"}, tys=[F])
+                c = add("arg", attrs={"role": "main"}, tys=[B_])
+                n = add("arg", attrs={"role": "main", "range": "trip"}, tys=[S])
+                ny = add("Neg", [(y, 0)], tys=[F])
+
+                def apply(base):
+                    pool = [base, (ny, 0), (x, 0), base][:k]
+                    if kind == "Concat":
+                        cc = add("Concat", pool, attrs={"axis": 0}, tys=[ty("f32", [N * k])])
+                        sp = add("Split", [(cc, 0), None], attrs={"axis": 0, "outputs": k}, tys=[F] * k) if k > 1 else cc
+                        return (sp, k - 1)
+                    attrs = {"equation": ",".join(["..."] * k) + "->..."} if kind == "Einsum" else None
+                    return (add(kind, pool, attrs=attrs, tys=[F]), 0)
+
+                if place == "main":
+                    out = apply((x, 0))
+                elif place == "if":
+                    r = apply((x, 0))
+                    out = (add("If", [(c, 0)], [{"args": [], "res": [list(r)]}, {"args": [], "res": [[y, 0]]}], tys=[F]), 0)
+                else:
+                    it = add("arg", attrs={"role": "formal"}, tys=[ty("i64", [], True)])
+                    cn = add("arg", attrs={"role": "formal"}, tys=[ty("bool", [], True)])
+                    a1 = add("arg", attrs={"role": "formal"}, tys=[F])
+                    a2 = add("arg", attrs={"role": "formal"}, tys=[F])
+                    r = apply((a1, 0))
+                    lp = add("Loop", [(n, 0), None, (x, 0), (y, 0)], [{"args": [it, cn, a1, a2], "res": [[cn, 0], list(r), [a1, 0]]}], tys=[F, F])
+                    out = (add("Add", [(lp, 0), (lp, 1)], tys=[F]), 0)
+                opset = 18 if kind == "Concat" and k > 1 else 17
+                yield {"nodes": nodes, "outputs": [list(out)], "opset": opset}, f"{kind}x{k}@{place}"
